@@ -64,6 +64,8 @@ type KeyMonSummary struct {
 	OutOfDomainCollisions int            `json:"out_of_domain_collisions"`  // of these: outside the injective domain (K5 class, 0x00 in names, ...): not reported
 	ScanComparisons       int            `json:"scan_comparisons"`          // (subspace call, key call of the same family) pairs decided: prefix test + subject comparison
 	ScanPrefixMatches     int            `json:"scan_prefix_matches"`       // of these: the subspace is a prefix of the key
+	K5Overmatches         int            `json:"k5_overmatches"`            // of the out-of-domain over-matches: an owner-prefixed scan of one owner matching the key of an owner of ANOTHER length (known finding K5)
+	K5Example             string         `json:"k5_example"`
 	OutOfDomainOvermatch  int            `json:"out_of_domain_overmatches"` // over-matches outside the exact domain (K5 class, raw earned prefix, 0x00 in names): not reported
 	ScanCompleteness      int            `json:"scan_completeness_checks"`  // subspace(fields of the key) evaluated and tested to be a prefix of the key
 	CrossFamilyTests      int            `json:"scan_cross_family_tests"`   // (subspace call, key of another family) pairs decided
@@ -535,6 +537,13 @@ func (m *keyMon) finish() *KeyMonSummary {
 				}
 				if !spec.domain(s.args, subj, k.args) {
 					m.sum.OutOfDomainOvermatch++
+					if (spec.sub == "GetOwnerBindingsSubspace" || spec.sub == "GetOwnerProvidersSubspace" || spec.sub == "GetOwnerEarnedFeesSubspace") &&
+						len(s.args) > 0 && len(k.args) > 0 && len(s.args[0].b) != len(k.args[0].b) && len(s.args[0].b) > 0 {
+						m.sum.K5Overmatches++
+						if m.sum.K5Example == "" {
+							m.sum.K5Example = fmt.Sprintf("%s = %s is a prefix of %s = %s", kmPretty(spec.sub, s.args), pkHex(s.res), kmPretty(spec.key, k.args), pkHex(k.res))
+						}
+					}
 					if kmDebug {
 						fmt.Fprintf(os.Stderr, "out-of-domain overmatch: %s | %s\n", kmPretty(spec.sub, s.args), kmPretty(spec.key, k.args))
 					}
